@@ -411,7 +411,7 @@ fn main() {
     let n_hist = if thorough { 4000 } else { 320 };
     let n_sweep = if thorough { 600 } else { 48 };
     let n_comp = if thorough { 1500 } else { 120 };
-    let shards = 16usize;
+    let shards = if thorough { 64usize } else { 16usize };
     let header = "From CKB Require Import Freezer.Files Freezer.Machine Freezer.Cursor.";
     let mut files: Vec<CaseFile> = (0..shards)
         .map(|i| {
